@@ -87,7 +87,13 @@ impl Read for ShortReader<'_> {
         if self.calls == 2 {
             return Err(std::io::Error::new(std::io::ErrorKind::Interrupted, "eintr"));
         }
-        let want = if self.calls == 1 { 1 } else { usize::MAX };
+        // 1 byte, EINTR, 1 byte, 2 bytes, then everything: a piece of >= 4 bytes takes at least three
+        // non-empty short reads inside one read_n call
+        let want = match self.calls {
+            1 | 3 => 1,
+            4 => 2,
+            _ => usize::MAX,
+        };
         let n = want.min(dst.len()).min(self.data.len());
         dst[..n].copy_from_slice(&self.data[..n]);
         self.data = &self.data[n..];
